@@ -1,12 +1,11 @@
-(* C15 proofs, part 2: the coefficient rewriting of _transform_ode_from_derivs (regenerated terms tode_bK_j) is the chain
-   rule: sum_k a_k y^(k)(x) = sum_j b_j u^(j)(g x) for y = u o g.  Proofs use unfold + ring only. *)
+(* C15 proofs, part 2a: the coefficient rewriting of _transform_ode_from_derivs for ODEs of order 1 and 2 (regenerated terms
+   tode_b1_j, tode_b2_j) is the chain rule: sum_k a_k y^(k)(x) = sum_j b_j u^(j)(g x) for y = u o g.  unfold + ring only. *)
 From Coq Require Import Reals Lra List.
 From Coquelicot Require Import Coquelicot.
 From P Require Import C15_bell C15_gen C15_ref C15_proofs_fdb.
 Import ListNotations.
 Open Scope R_scope.
 
-(* ---------------------------------------------------------------- the code's coefficient rewriting *)
 Lemma tode_1_lemma a0 a1 d1 d2 d3 w0 w1 :
   a0 * w0 + a1 * (w1 * d1) = tode_b1_0 a0 a1 d1 d2 d3 * w0 + tode_b1_1 a0 a1 d1 d2 d3 * w1.
 Proof. unfold tode_b1_0, tode_b1_1. ring. Qed.
@@ -14,15 +13,10 @@ Lemma tode_2_lemma a0 a1 a2 d1 d2 d3 w0 w1 w2 :
   a0 * w0 + a1 * (w1 * d1) + a2 * (w2 * d1 ^ 2 + w1 * d2) =
   tode_b2_0 a0 a1 a2 d1 d2 d3 * w0 + tode_b2_1 a0 a1 a2 d1 d2 d3 * w1 + tode_b2_2 a0 a1 a2 d1 d2 d3 * w2.
 Proof. unfold tode_b2_0, tode_b2_1, tode_b2_2. ring. Qed.
-Lemma tode_3_lemma a0 a1 a2 a3 d1 d2 d3 w0 w1 w2 w3 :
-  a0 * w0 + a1 * (w1 * d1) + a2 * (w2 * d1 ^ 2 + w1 * d2) + a3 * (w3 * d1 ^ 3 + 3 * w2 * d1 * d2 + w1 * d3) =
-  tode_b3_0 a0 a1 a2 a3 d1 d2 d3 * w0 + tode_b3_1 a0 a1 a2 a3 d1 d2 d3 * w1 +
-  tode_b3_2 a0 a1 a2 a3 d1 d2 d3 * w2 + tode_b3_3 a0 a1 a2 a3 d1 d2 d3 * w3.
-Proof. unfold tode_b3_0, tode_b3_1, tode_b3_2, tode_b3_3. ring. Qed.
-Lemma tode_leading a0 a1 a2 a3 d1 d2 d3 :
-  tode_b1_1 a0 a1 d1 d2 d3 = a1 * d1 /\ tode_b2_2 a0 a1 a2 d1 d2 d3 = a2 * d1 ^ 2 /\
-  tode_b3_3 a0 a1 a2 a3 d1 d2 d3 = a3 * d1 ^ 3.
-Proof. unfold tode_b1_1, tode_b2_2, tode_b3_3. repeat split; ring. Qed.
+
+Lemma tode_leading_12 a0 a1 a2 d1 d2 d3 :
+  tode_b1_1 a0 a1 d1 d2 d3 = a1 * d1 /\ tode_b2_2 a0 a1 a2 d1 d2 d3 = a2 * d1 ^ 2.
+Proof. unfold tode_b1_1, tode_b2_2. split; ring. Qed.
 
 Section ChainRule.
   Variables (u0 u1 u2 u3 g g1 g2 g3 : R -> R) (x : R).
@@ -47,15 +41,4 @@ Section ChainRule.
     tode_b2_0 a0 a1 a2 (g1 x) (g2 x) (g3 x) * u0 (g x) + tode_b2_1 a0 a1 a2 (g1 x) (g2 x) (g3 x) * u1 (g x) +
     tode_b2_2 a0 a1 a2 (g1 x) (g2 x) (g3 x) * u2 (g x).
   Proof. split; [exact (fdb1 u0 u1 g g1 x Hg1 Hu1)|]. split; [exact (fdb2 u1 u2 g g1 g2 x Hg1 Hg2 Hu2)|]. unfold y1, y2, Y1, Y2. apply tode_2_lemma. Qed.
-  Lemma chain_rule_3_lemma a0 a1 a2 a3 :
-    is_derive (fun t => u0 (g t)) x (y1 x) /\ is_derive y1 x (y2 x) /\ is_derive y2 x (y3 x) /\
-    a0 * u0 (g x) + a1 * y1 x + a2 * y2 x + a3 * y3 x =
-    tode_b3_0 a0 a1 a2 a3 (g1 x) (g2 x) (g3 x) * u0 (g x) + tode_b3_1 a0 a1 a2 a3 (g1 x) (g2 x) (g3 x) * u1 (g x) +
-    tode_b3_2 a0 a1 a2 a3 (g1 x) (g2 x) (g3 x) * u2 (g x) + tode_b3_3 a0 a1 a2 a3 (g1 x) (g2 x) (g3 x) * u3 (g x).
-  Proof.
-    split; [exact (fdb1 u0 u1 g g1 x Hg1 Hu1)|]. split; [exact (fdb2 u1 u2 g g1 g2 x Hg1 Hg2 Hu2)|].
-    split; [exact (fdb3 u1 u2 u3 g g1 g2 g3 x Hg1 Hg2 Hg3 Hu2 Hu3)|].
-    unfold y1, y2, y3, Y1, Y2, Y3. apply tode_3_lemma.
-  Qed.
-
 End ChainRule.
